@@ -24,6 +24,7 @@ def gen(rng, n_cases):
         yield {"X": X[:n], "Xo": X[n:], "n_ieq": n_ieq, "n_eq": n_eq, "pseed": int(rng.randint(1000)),
                "grid": [None, 0.5, 0.1][rng.randint(3)], "shift": float(rng.choice([-1.0, 0.0, 1.0, 3.0])),
                "warm": bool(rng.randint(3) == 0), "shared_default": bool(rng.randint(2)),
+               "mode": ["normal", "normal", "normal", "off-none", "inplace"][rng.randint(5)],
                "seed": int(rng.randint(2**31 - 1))}
 
 
@@ -44,6 +45,10 @@ def run(case, replay=None):
     from pymoode.survival.replacement import ImprovementReplacement
     cfgk = ("n_ieq", "n_eq", "pseed", "grid", "shift", "warm", "shared_default", "seed")
     rec = Record(NAME, {k: case[k] for k in cfgk}, {"X": np.array(case["X"], dtype=float), "Xo": np.array(case["Xo"], dtype=float)})
+    mode = case.get("mode", "normal")
+    rec.cfg["mode"] = mode
+    if mode == "single":
+        rec.inp["X"], rec.inp["Xo"] = rec.inp["X"][:1], rec.inp["Xo"][:1]
     X, Xo = rec.inp["X"], rec.inp["Xo"]
     n, d = X.shape
     prob = _problem(d, case["n_ieq"], case["n_eq"], case["pseed"], case["grid"], case["shift"])
@@ -75,11 +80,31 @@ def run(case, replay=None):
                 Evaluator().eval(other, o2)
                 op.do(other, p2, o2)
                 rec.tags.add("warm")
-            mask = op.do(prob, pop, off, return_indices=True)
-            rec.out["mask"] = np.array(mask, dtype=bool)
-            out = op.do(prob, pop, off)
             pos = {id(ind): i for i, ind in enumerate(pop)}
             pos.update({id(ind): n + i for i, ind in enumerate(off)})
+            if mode == "off-none":
+                # no offspring: fitness assignment only
+                out = op.do(prob, pop, None)
+                rec.out["mask"] = np.zeros(n, dtype=bool)
+            elif mode == "int-k":
+                # used as a traditional survival: merged population, the offspring start at position k
+                merged = Population.merge(pop, off)
+                rec.out["mask"] = np.array(op.do(prob, merged, n, return_indices=True), dtype=bool)
+                out = op.do(prob, merged, n)
+            elif mode == "inplace":
+                rec.out["mask"] = np.array(op.do(prob, pop, off, return_indices=True), dtype=bool)
+                pop2 = pop.copy()
+                out = op.do(prob, pop2, off, inplace=True)
+                exp = [n + i if rec.out["mask"][i] else i for i in range(n)]
+                if [pos.get(id(ind), -1) for ind in pop2] != exp:
+                    rec.frames.append("inplace=True did not write the accepted offspring into the given population")
+            elif mode == "single":
+                rec.out["mask"] = np.atleast_1d(np.array(op.do(prob, pop[0], off[0], return_indices=True), dtype=bool))
+                out = op.do(prob, pop[0], off[0])
+            else:
+                mask = op.do(prob, pop, off, return_indices=True)
+                rec.out["mask"] = np.array(mask, dtype=bool)
+                out = op.do(prob, pop, off)
             rec.out["ids"] = np.array([pos.get(id(ind), -1) for ind in out], dtype=int)
             rec.out["rank"] = np.array([-1 if r is None else int(r) for r in out.get("rank")], dtype=int)
             rec.out["pop_after"] = np.array([pos.get(id(ind), -1) for ind in pop], dtype=int)
@@ -111,6 +136,8 @@ def _inds(rec, who):
 
 
 def encode(rec):
+    if rec.cfg.get("mode") == "off-none":
+        return " ".join(["fitsort"] + _inds(rec, "pop"))
     return " ".join([NAME, "1" if rec.cfg["constr"] else "0"] + _inds(rec, "pop") + _inds(rec, "off"))
 
 
@@ -120,6 +147,9 @@ def compare(rec, ans):
         return [] if rec.err is not None else ["model rejects the record: " + ans.rest()]
     if rec.err is not None:
         return ["implementation raised %s" % rec.err]
+    if rec.cfg.get("mode") == "off-none":
+        ids = ans.ilist()
+        return [] if ids == list(rec.out["ids"]) else ["fitness-sorted population differs: impl %s model %s" % (list(rec.out["ids"]), ids)]
     mask = [bool(x) for x in ans.ilist()]
     ids = ans.ilist()
     out = []
@@ -159,7 +189,7 @@ def oracle_C02(rec):
     pf, pcv, pfe = rec.inp["pop_F"], rec.inp["pop_CV"], rec.inp["pop_feas"]
     of, ocv, ofe = rec.inp["off_F"], rec.inp["off_CV"], rec.inp["off_feas"]
     S = set(ids)
-    for k in range(n):
+    for k in range(n if rec.cfg.get("mode") != "off-none" else 0):
         has_p, has_o = k in S, (n + k) in S
         if has_p == has_o:
             bad.append("slot %d holds %s" % (k, "both parent and offspring" if has_p else "neither its parent nor its offspring"))
